@@ -4,7 +4,7 @@
 //!   F <path>                 select a TZif file (TimeZone::from_tz_data)
 //!   S <tz string>            select a POSIX TZ string (settings with a failing reader)
 //!   T <unix time>            -> "T <offset> <abbr> <isdst>"  or  "T ERR <error>"
-//!   L <y> <mo> <d> <h> <mi> <s>  -> "L <instant>,...|<gap instant>:<offset before>:<offset after>,..." or "L ERR .."
+//!   L <y> <mo> <d> <h> <mi> <s>  -> "L <instant>:<offset>:<abbr>:<isdst>,...|<gap instant>:<offset before>:<offset after>,..." or "L ERR .."
 //!   X <y0> <y1>              -> "X <instants...>" model DST start/end instants of the selected rule for years y0..=y1
 //!                               (taken from the reference model; they only select where to probe)
 //! one response line per request line (F/S answer "OK" or "ERR ..").
@@ -106,7 +106,11 @@ pub fn run(args: &crate::common::Args) -> i32 {
                             let mut sk: Vec<String> = vec![];
                             for k in list {
                                 match k {
-                                    FoundDateTimeKind::Normal(d) => xs.push(d.unix_time().to_string()),
+                                    FoundDateTimeKind::Normal(d) => {
+                                        let l = d.local_time_type();
+                                        let n = l.time_zone_designation();
+                                        xs.push(format!("{}:{}:{}:{}", d.unix_time(), l.ut_offset(), if n.is_empty() { "-" } else { n }, l.is_dst() as u8))
+                                    }
                                     FoundDateTimeKind::Skipped { before_transition, after_transition } => sk.push(format!("{}:{}:{}", before_transition.unix_time(), before_transition.local_time_type().ut_offset(), after_transition.local_time_type().ut_offset())),
                                 }
                             }
